@@ -13,6 +13,9 @@ import Simfile.Model.Group
 import Simfile.Model.Engine
 import Simfile.Model.Load
 import Simfile.Model.Msd
+import Simfile.Model.Source
+import Simfile.Model.Convert
+import Simfile.Model.Views
 import Simfile.Spec.Timeline
 import Simfile.Spec.Notes
 import Simfile.Spec.Group
@@ -175,6 +178,67 @@ def jObjErr : Err → Json
   | .stopIteration => jErr "StopIteration"
   | .msdParserError => jErr "MSDParserError"
 
+
+/-! sources, conversion, views -/
+def getKind (j : Json) : R Kind := do
+  match (← j.getStr?) with
+  | "SMSimfile" => pure .smSimfile
+  | "SSCSimfile" => pure .sscSimfile
+  | "SMChart" => pure .smChart
+  | "SSCChart" => pure .sscChart
+  | s => throw s!"bad kind {s}"
+def getSrc (j : Json) : R Src := do pure { kind := ← getKind (← field j "kind"), d := ← getDict (← field j "d") }
+def getOptSrc (j : Json) : R (Option Src) := if j.isNull then pure none else do pure (some (← getSrc j))
+def jSErr : SErr → Json
+  | .valueError => jErr "ValueError"
+  | .keyError => jErr "KeyError"
+  | .typeError => jErr "TypeError"
+def jRows : Option (List BVRow) → Json
+  | none => Json.null
+  | some rows => jArr (fun (r : BVRow) => Json.arr #[jRat r.beat, jStr r.value]) rows
+def jDisplay : DisplayBPM → Json
+  | .static v => Json.arr #[Json.str "static", jRat v]
+  | .range a b => Json.arr #[Json.str "range", jRat a, jRat b]
+  | .random => Json.arr #[Json.str "random"]
+def getChartPair (j : Json) : R (Dict × Option (List Str)) := do
+  let e := fieldD j "extradata" Json.null
+  pure (← getDict (← field j "d"), ← (if e.isNull then pure none else do pure (some (← getArr getStr e))))
+def getAny (j : Json) : R AnySimfile := do
+  pure { isSSC := ← getBool (← field j "ssc"), props := ← getDict (← field j "props"),
+         charts := ← getArr getChartPair (← field j "charts") }
+def jAny (s : AnySimfile) : Json :=
+  Json.mkObj [("ssc", jBool s.isSSC), ("props", jDict s.props),
+    ("charts", jArr (fun (c : Dict × Option (List Str)) => Json.mkObj [("d", jDict c.1),
+       ("extradata", match c.2 with | none => Json.null | some l => jArr jStr l)]) s.charts)]
+def jCErr : CErr → Json
+  | .notImplemented => jErr "NotImplementedError"
+  | .invalidProperty k => Json.mkObj [("err", Json.str "InvalidPropertyException"), ("key", jStr k)]
+  | .keyError => jErr "KeyError"
+  | .valueError => jErr "ValueError"
+  | .attributeError => jErr "AttributeError"
+def getVOp (j : Json) : R VOp := do
+  match (← j.getArr?).toList with
+  | [Json.str "getattr", a] => pure (.getAttr (← getStr a))
+  | [Json.str "setattr", a, v] => pure (.setAttr (← getStr a) (← getStr v))
+  | [Json.str "delattr", a] => pure (.delAttr (← getStr a))
+  | [Json.str "getkey", k] => pure (.getKey (← getStr k))
+  | [Json.str "setkey", k, v] => pure (.setKey (← getStr k) (← getStr v))
+  | [Json.str "delkey", k] => pure (.delKey (← getStr k))
+  | [Json.str "contains", k] => pure (.contains (← getStr k))
+  | [Json.str "items"] => pure .items
+  | [Json.str "pop", k] => pure (.pop (← getStr k))
+  | [Json.str "popitem"] => pure .popitem
+  | [Json.str "update", k, v] => pure (.update (← getStr k) (← getStr v))
+  | _ => throw "bad view op"
+def jVOut : VOut → Json
+  | .value v => Json.arr #[Json.str "value", jOptStr v]
+  | .done => Json.arr #[Json.str "done"]
+  | .bool b => Json.arr #[Json.str "bool", jBool b]
+  | .items d => Json.arr #[Json.str "items", jDict d]
+  | .keyError => Json.arr #[Json.str "KeyError"]
+  | .notImplemented => Json.arr #[Json.str "NotImplementedError"]
+  | .attributeError => Json.arr #[Json.str "AttributeError"]
+
 def jExcept {ε α} (fe : ε → Json) (fa : α → Json) : Except ε α → Json
   | .ok a => jOk (fa a)
   | .error e => fe e
@@ -298,6 +362,26 @@ def handle (j : Json) : R Json := do
   | "obj.sm_chart_from_str" => pure (jExcept jObjErr jSMChart (smChartFromStr (← getStr (← field j "s"))))
   | "obj.sm_chart_from_msd" => pure (jExcept jObjErr jSMChart (smChartFromMsd (← getArr getStr (← field j "values"))))
   | "obj.notes_last" => pure (jSSC (← getSSC (← field j "sf")).notesLast)
+  | "source.use_chart" => pure (jExcept jSErr jBool (useChart (← getSrc (← field j "sim")) (← getOptSrc (fieldD j "chart" Json.null))))
+  | "source.timing_data" =>
+    pure (jExcept jSErr (fun (t : TDStrings) => Json.mkObj [("bpms", jRows t.bpms), ("stops", jRows t.stops), ("delays", jRows t.delays),
+        ("warps", jRows t.warps), ("offset", match t.offset with | some q => jRat q | none => Json.null)])
+      (timingData (← getSrc (← field j "sim")) (← getOptSrc (fieldD j "chart" Json.null))))
+  | "source.displaybpm" =>
+    pure (jExcept jSErr jDisplay (displayBpm (← getSrc (← field j "sim")) (← getOptSrc (fieldD j "chart" Json.null)) (← getBool (← field j "ignore"))))
+  | "convert.convert" =>
+    let st := fieldD j "sim_template" Json.null
+    let ct := fieldD j "chart_template" Json.null
+    let beh ← getArr (fun p => do
+      match (← p.getArr?).toList with
+      | [a, b] => pure (← getNat a, ← getNat b)
+      | _ => throw "pair expected") (← field j "beh")
+    pure (jExcept jCErr jAny (convert (← getAny (← field j "src")) (← getBool (← field j "to_ssc"))
+      (← (if st.isNull then pure none else do pure (some (← getAny st))))
+      (← (if ct.isNull then pure none else do pure (some (← getChartPair ct)))) beh))
+  | "views.run" =>
+    let (d, outs) := vrun (← getKind (← field j "kind")) (← getDict (← field j "d")) (← getArr getVOp (← field j "ops"))
+    pure (Json.mkObj [("d", jDict d), ("outs", jArr jVOut outs)])
   | "msd.safe" => pure (jBool (safeParams (← getArr getParam (← field j "params")) false))
   | "load.any" =>
     let name ← getOptStr (fieldD j "name" Json.null)
